@@ -58,18 +58,27 @@ def generate(rng, focus, tier="quick"):
     last = dict((a, _p(rng)) for a in assets)
     t = start
     p_update = rng.choice([0.3, 0.6, 0.9])
+    # a steadily compounding market (every observation the previous one times a constant, at full float
+    # precision): returns that are nearly, but not exactly, identical - the hard case for a variance
+    grow = None
+    if rng.random() < 0.15:
+        grow = dict((a, rng.choice([1.1, 1.03, 1.01, 1.001, 0.99, 1.0 + 1.0 / 3.0])) for a in assets)
+        _plain = _p
+
+        def _step(a_):
+            return last[a_] * grow[a_]
     for _ in range(n_ops):
         if rng.random() < p_update:
             t += rng.choice([DAY, DAY, DAY, 3 * DAY])
             quotes = {}
             for a in assets:
-                last[a] = _p(rng, last[a])
+                last[a] = _step(a) if grow else _p(rng, last[a])
                 spread = round(last[a] * 0.001 + 0.0001, 4)
                 quotes[a] = [last[a], round(last[a] + spread, 4)]
             ops.append({"k": "update", "t": (t // DAY) * DAY + CLOSE_S, "quotes": quotes})
         else:
             a = rng.choice(assets)
-            last[a] = _p(rng, last[a])
+            last[a] = _step(a) if grow else _p(rng, last[a])
             pr = last[a]
             if rng.random() < 0.1 and pr >= 1:
                 pr = int(pr)                       # a whole price handed over as a Python int
